@@ -210,7 +210,7 @@ impl<'a> Rd<'a> {
                     'x' => 16,
                     'b' => 2,
                     'd' => 10,
-                    _ => return self.err("unsupported exactness prefix"),
+                    _ => return self.err("exactness prefix not supported by the model"),
                 };
                 let body = &t[1..];
                 let (neg, digits) = match body.strip_prefix('-') {
